@@ -1,4 +1,5 @@
 import XmppVerif.Drv.Core
+import XmppVerif.Drv.Recv
 import XmppVerif.Drv.C06
 import XmppVerif.Drv.C10
 import XmppVerif.Drv.C15
@@ -12,6 +13,9 @@ import XmppVerif.Drv.C20
 open XmppVerif.Drv
 
 def handlers : List (String × Handler) := [
+  ("C05", XmppVerif.Drv.Recv.handlerC05),
+  ("C09", XmppVerif.Drv.Recv.handlerC09),
+  ("C12", XmppVerif.Drv.Recv.handlerC12),
   ("C06", XmppVerif.Drv.C06.handler),
   ("C10", XmppVerif.Drv.C10.handler),
   ("C15", XmppVerif.Drv.C15.handler),
